@@ -31,15 +31,15 @@ const (
 var jobKindNames = [numJobKinds]string{"asm-valid", "asm-invalid", "asm-for", "asm-equ", "load", "battle"}
 
 type job struct {
-	kind   jobKind
-	text   string
-	cfg    g.SimulatorConfig
-	shared []*g.WarriorData // battle: warriors shared between jobs (and with the caller)
-	offs   []int
-	seq    string // result when run alone
-	seqAfter bool // the run-alone result is taken after the concurrent phase (no warm-up of any cache)
-	reset  bool   // battle: run, Reset, respawn and run again; both runs must give the same result
-	expect string // battle: result of the reference MARS (independent of any history)
+	kind     jobKind
+	text     string
+	cfg      g.SimulatorConfig
+	shared   []*g.WarriorData // battle: warriors shared between jobs (and with the caller)
+	offs     []int
+	seq      string // result when run alone
+	seqAfter bool   // the run-alone result is taken after the concurrent phase (no warm-up of any cache)
+	reset    bool   // battle: run, Reset, respawn and run again; both runs must give the same result
+	expect   string // battle: result of the reference MARS (independent of any history)
 }
 
 func battleSummary(surv []bool, cycles int, m int, cell func(a int) g.Instruction, queues [][]int) string {
@@ -157,6 +157,13 @@ func runC14(c *Ctx) {
 			bc := genBattle(r, 2, false)
 			w0 := bc.Warriors[0]
 			caller := &g.WarriorData{Name: "caller", Author: "me", Strategy: "s\n", Code: toGCode(w0.Code), Start: w0.Start}
+			spare := r.Chance(1, 2)
+			if spare {
+				// a caller-side slice with room to spare (pre-sized buffers are common): the caller may go on appending
+				roomy := make([]g.Instruction, len(caller.Code), 3*len(caller.Code)+r.Intn(8))
+				copy(roomy, caller.Code)
+				caller.Code = roomy
+			}
 			snap := copyWD(caller)
 			s, err := g.NewSimulator(bc.config())
 			if err == nil {
@@ -167,6 +174,12 @@ func runC14(c *Ctx) {
 				}
 				caller.Start = (caller.Start + 1) % max(len(caller.Code), 1)
 				caller.Name, caller.Author = "scribbled", "scribbled"
+				if spare {
+					for cap(caller.Code) > len(caller.Code) {
+						caller.Code = append(caller.Code, g.Instruction{Op: g.DAT, OpMode: g.F, AMode: g.IMMEDIATE, A: 3, BMode: g.IMMEDIATE, B: 3})
+					}
+					c.Inc("aliasing_checks_with_spare_capacity_appended")
+				}
 				scribbled := copyWD(caller)
 				s.SpawnWarrior(0, g.Address(w0.Off))
 				ref := mars.NewBattle(bc.M, bc.P, bc.C, bc.R, bc.W)
